@@ -826,6 +826,7 @@ func (p *Prog) fieldsTouched(tname string, bodies []*ast.FuncDecl) (stored, read
 // exemptions: receiver-side markers that have no wire representation of their own.
 var symmetryExempt = map[string]string{
 	"Settings.hasWindowSize": "receiver-side presence marker for INITIAL_WINDOW_SIZE; never encoded",
+	"Settings.present":       "receiver-side presence markers, one bit per parameter id that was in the frame; never encoded",
 	"Settings.rawSettings":   "scratch buffer of Encode",
 }
 
